@@ -36,15 +36,44 @@ def okS4L (ps : List String) : List X.Stmt → Bool
   | s :: ss => okS4 ps s && okS4L ps ss
 end
 
-/-- The first actual is a call (any callee, call-free actuals), all others are constants. -/
-def firstCallArgs (ps : List String) (ρ : String → Option Word) : List X.Expr → Bool
-  | a :: as => callE ps a && as.all (isConstL ρ)
-  | [] => false
+/-- Expressions with one call (`callOk` decides which calls) under monadic operators and under
+    arithmetic / relational operators whose other operand is a constant. -/
+def ipE (ρ : String → Option Word) (callOk : X.Expr → Bool) : X.Expr → Bool
+  | .un _ e => ipE ρ callOk e
+  | .bin op l r => isArith op && ((isConstL ρ l && ipE ρ callOk r) || (ipE ρ callOk l && isConstL ρ r))
+  | .call g args => callOk (.call g args)
+  | .syscall id args => callOk (.syscall id args)
+  | _ => false
 
-/-- The actuals of a call: call-free; or (class v3) with calls of pure functions; or one call in
-    first position next to constants. -/
+/-- `2(args)`, or a call through a constant whose value is 2, with call-free actuals. -/
+def sysE (ρ : String → Option Word) : X.Expr → Bool
+  | .syscall id args => decide (id = 2) && args.all pureE
+  | .call g args => decide (ρ g = some 2) && args.all pureE
+  | _ => false
+
+mutual
+/-- The class of expressions with ONE path of calls of any callee: a call of a user function
+    (`ps`) whose actuals are call-free, or (class v3, `pk`) have calls of pure functions only, or are
+    constants except one that is again of this class; system call 2 with call-free actuals; monadic
+    operators, and arithmetic / relational operators whose other operand is a constant, over it. -/
+def ipE5 (pk : Bool) (ps imp : List String) (ρ : String → Option Word) : X.Expr → Bool
+  | .un _ e => ipE5 pk ps imp ρ e
+  | .bin op l r => isArith op && ((isConstL ρ l && ipE5 pk ps imp ρ r) || (ipE5 pk ps imp ρ l && isConstL ρ r))
+  | .call g args =>
+    (ps.contains g && (args.all pureE || (pk && args.all (ppE ps imp)) || oneImp5 pk ps imp ρ args)) ||
+    (decide (ρ g = some 2) && args.all pureE)
+  | .syscall id args => decide (id = 2) && args.all pureE
+  | _ => false
+/-- Exactly one actual is of the class `ipE5`, all the others are constants. -/
+def oneImp5 (pk : Bool) (ps imp : List String) (ρ : String → Option Word) : List X.Expr → Bool
+  | [] => false
+  | a :: as => (ipE5 pk ps imp ρ a && as.all (isConstL ρ)) || (isConstL ρ a && oneImp5 pk ps imp ρ as)
+end
+
+/-- The actuals of a call: call-free; or (class v3) with calls of pure functions; or constants
+    except one actual of the class `ipE5`. -/
 def argsOk5 (pk : Bool) (ps imp : List String) (ρ : String → Option Word) (args : List X.Expr) : Bool :=
-  args.all pureE || (pk && args.all (ppE ps imp)) || firstCallArgs ps ρ args
+  args.all pureE || (pk && args.all (ppE ps imp)) || oneImp5 pk ps imp ρ args
 
 /-- A call of one of the procedures `ps` with such actuals. -/
 def callE5 (pk : Bool) (ps imp : List String) (ρ : String → Option Word) : X.Expr → Bool
@@ -57,14 +86,20 @@ theorem callE_callE5 (pk : Bool) (ps imp : List String) (ρ : String → Option 
   simp only [callE5, argsOk5, Bool.and_eq_true, Bool.or_eq_true, List.all_eq_true, List.contains_iff_mem]
   exact ⟨h.1, Or.inl (Or.inl h.2)⟩
 
-/-- A right-hand side: call-free, one call, or (class v3, `pk`) operators over calls of pure
-    functions. -/
+/-- A right-hand side: call-free, one call, (class v3, `pk`) operators over calls of pure
+    functions, or an expression of the class `ipE5`. -/
 def rhs5 (pk : Bool) (ps imp : List String) (ρ : String → Option Word) (e : X.Expr) : Bool :=
-  pureE e || callE5 pk ps imp ρ e || (pk && ppE ps imp e)
+  pureE e || callE5 pk ps imp ρ e || (pk && ppE ps imp e) || ipE5 pk ps imp ρ e
 
-/-- A condition: call-free, or (class v3) operators over calls of pure functions. -/
-def cond5 (pk : Bool) (ps imp : List String) (e : X.Expr) : Bool :=
-  pureE e || (pk && ppE ps imp e)
+/-- A condition: call-free, (class v3) operators over calls of pure functions, or an expression of
+    the class `ipE5`. -/
+def cond5 (pk : Bool) (ps imp : List String) (ρ : String → Option Word) (e : X.Expr) : Bool :=
+  pureE e || (pk && ppE ps imp e) || ipE5 pk ps imp ρ e
+
+/-- The actuals of a system call: call-free, (class v3) with calls of pure functions, or constants
+    except one actual of the class `ipE5`. -/
+def sysArgs5 (pk : Bool) (ps imp : List String) (ρ : String → Option Word) (args : List X.Expr) : Bool :=
+  args.all pureE || (pk && args.all (ppE ps imp)) || oneImp5 pk ps imp ρ args
 
 /-- A name the constants `ρ` make a system-call number. -/
 def valSys (ρ : String → Option Word) (f : String) : Bool :=
@@ -75,57 +110,65 @@ def valSys (ρ : String → Option Word) (f : String) : Bool :=
 mutual
 /-- The statements of stage (4), with calls of pure functions in operands if `pk`; `ρ` are the
     global constants (a call through a constant is a system call). -/
-def okS5 (pk : Bool) (ps imp : List String) (ρ : String → Option Word) : X.Stmt → Bool
+def okS5 (pk : Bool) (ps imp : List String) (ρ : String → Option Word) (loc : String → Bool) : X.Stmt → Bool
   | .skip | .stop => true
   | .ret e => rhs5 pk ps imp ρ e
-  | .ite c t e => cond5 pk ps imp c && okS5 pk ps imp ρ t && okS5 pk ps imp ρ e
-  | .while c b => cond5 pk ps imp c && okS5 pk ps imp ρ b
-  | .seq ss => okS5L pk ps imp ρ ss
+  | .ite c t e => cond5 pk ps imp ρ c && okS5 pk ps imp ρ loc t && okS5 pk ps imp ρ loc e
+  | .while c b => cond5 pk ps imp ρ c && okS5 pk ps imp ρ loc b
+  | .seq ss => okS5L pk ps imp ρ loc ss
   | .assign _ e => rhs5 pk ps imp ρ e
-  | .syscall id args => decide (id < 3) && args.all pureE
-  | .call f args => (ps.contains f && argsOk5 pk ps imp ρ args) || (valSys ρ f && args.all pureE)
-  | .assignSub _ i e => pureE i && pureE e
-def okS5L (pk : Bool) (ps imp : List String) (ρ : String → Option Word) : List X.Stmt → Bool
+  | .syscall id args => decide (id < 3) && sysArgs5 pk ps imp ρ args
+  | .call f args => (ps.contains f && argsOk5 pk ps imp ρ args) || (valSys ρ f && sysArgs5 pk ps imp ρ args)
+  | .assignSub n i e =>
+    ((pureE i || (pk && ppE ps imp i)) && (pureE e || (pk && ppE ps imp e))) ||
+    (ipE5 pk ps imp ρ i && isConstL ρ e) || (isConstL ρ i && ipE5 pk ps imp ρ e && loc n)
+def okS5L (pk : Bool) (ps imp : List String) (ρ : String → Option Word) (loc : String → Bool) : List X.Stmt → Bool
   | [] => true
-  | s :: ss => okS5 pk ps imp ρ s && okS5L pk ps imp ρ ss
+  | s :: ss => okS5 pk ps imp ρ loc s && okS5L pk ps imp ρ loc ss
 end
 
 mutual
-theorem okS4_okS5 (pk : Bool) (ps imp : List String) (ρ : String → Option Word) : (s : X.Stmt) → okS4 ps s = true → okS5 pk ps imp ρ s = true
+theorem okS4_okS5 (pk : Bool) (ps imp : List String) (ρ : String → Option Word) (loc : String → Bool) : (s : X.Stmt) → okS4 ps s = true → okS5 pk ps imp ρ loc s = true
   | .skip, _ => rfl
   | .stop, _ => rfl
   | .ret e, h => by
     simp only [okS4, Bool.or_eq_true] at h
     simp only [okS5, rhs5, Bool.or_eq_true]
-    exact Or.inl (h.imp id (callE_callE5 pk ps imp ρ e))
+    exact Or.inl (Or.inl (h.imp id (callE_callE5 pk ps imp ρ e)))
   | .assign _ e, h => by
     simp only [okS4, Bool.or_eq_true] at h
     simp only [okS5, rhs5, Bool.or_eq_true]
-    exact Or.inl (h.imp id (callE_callE5 pk ps imp ρ e))
+    exact Or.inl (Or.inl (h.imp id (callE_callE5 pk ps imp ρ e)))
   | .ite c t e, h => by
     simp only [okS4, Bool.and_eq_true] at h
     simp only [okS5, cond5, Bool.and_eq_true, Bool.or_eq_true]
-    exact ⟨⟨Or.inl h.1.1, okS4_okS5 pk ps imp ρ t h.1.2⟩, okS4_okS5 pk ps imp ρ e h.2⟩
+    exact ⟨⟨Or.inl (Or.inl h.1.1), okS4_okS5 pk ps imp ρ loc t h.1.2⟩, okS4_okS5 pk ps imp ρ loc e h.2⟩
   | .while c b, h => by
     simp only [okS4, Bool.and_eq_true] at h
     simp only [okS5, cond5, Bool.and_eq_true, Bool.or_eq_true]
-    exact ⟨Or.inl h.1, okS4_okS5 pk ps imp ρ b h.2⟩
+    exact ⟨Or.inl (Or.inl h.1), okS4_okS5 pk ps imp ρ loc b h.2⟩
   | .seq ss, h => by
     simp only [okS4] at h
     simp only [okS5]
-    exact okS4L_okS5L pk ps imp ρ ss h
-  | .syscall _ _, h => by simp only [okS4] at h; simp only [okS5]; exact h
+    exact okS4L_okS5L pk ps imp ρ loc ss h
+  | .syscall _ _, h => by
+    simp only [okS4, Bool.and_eq_true] at h
+    simp only [okS5, sysArgs5, Bool.and_eq_true, Bool.or_eq_true]
+    exact ⟨h.1, Or.inl (Or.inl h.2)⟩
   | .call _ _, h => by
     simp only [okS4, Bool.and_eq_true] at h
     simp only [okS5, argsOk5, Bool.and_eq_true, Bool.or_eq_true]
     exact Or.inl ⟨h.1, Or.inl (Or.inl h.2)⟩
-  | .assignSub _ _ _, h => by simp only [okS4] at h; simp only [okS5]; exact h
-theorem okS4L_okS5L (pk : Bool) (ps imp : List String) (ρ : String → Option Word) : (ss : List X.Stmt) → okS4L ps ss = true → okS5L pk ps imp ρ ss = true
+  | .assignSub _ _ _, h => by
+    simp only [okS4, Bool.and_eq_true] at h
+    simp only [okS5, Bool.and_eq_true, Bool.or_eq_true]
+    exact Or.inl (Or.inl ⟨Or.inl h.1, Or.inl h.2⟩)
+theorem okS4L_okS5L (pk : Bool) (ps imp : List String) (ρ : String → Option Word) (loc : String → Bool) : (ss : List X.Stmt) → okS4L ps ss = true → okS5L pk ps imp ρ loc ss = true
   | [], _ => rfl
   | s :: ss, h => by
     simp only [okS4L, Bool.and_eq_true] at h
     simp only [okS5L, Bool.and_eq_true]
-    exact ⟨okS4_okS5 pk ps imp ρ s h.1, okS4L_okS5L pk ps imp ρ ss h.2⟩
+    exact ⟨okS4_okS5 pk ps imp ρ loc s h.1, okS4L_okS5L pk ps imp ρ loc ss h.2⟩
 end
 
 /-- `val` and `array` formals. -/
@@ -163,6 +206,7 @@ structure GCtx where
   abase : Nat → Nat := fun _ => 0      -- word address of the global array with the given id
   asize : Nat → Nat := fun _ => 0      -- its length
   rho : String → Option Word := fun _ => none   -- the global `val` constants
+  strs : List (String × List Byte) := []          -- the string literals, with their labels
 
 def GCtx.S (G : GCtx) (pi : PInfo) : Nat := (frameOf G.cg pi.idx).size
 def GCtx.xl (G : GCtx) (pi : PInfo) : String := (frameOf G.cg pi.idx).exitLabel
@@ -218,14 +262,24 @@ theorem GCtx.locOf_cases (G : GCtx) (pi : PInfo) (sp : Nat) (n : String) (a : Na
         · rw [if_neg hc] at h; simp at h
     · rw [if_neg hloc] at h; simp at h
 
+/-- The name has a place (a variable, an array, a formal) in the procedure. -/
+def GCtx.isLoc (G : GCtx) (pi : PInfo) (n : String) : Bool := (G.locOf pi G.lo n).isSome
+
 /-- The context of an activation of `pi` with stack pointer `sp` at nesting depth `dep`. -/
 def KOf (G : GCtx) (pi : PInfo) (sp dep : Nat) (hi : Nat → Word) : PCtx :=
   { env := G.env, out := G.cg, ctx := G.ctxOf pi, xc := G.xc, ρ := G.rho, sp := sp,
     loc := G.locOf pi sp, consts := G.consts, nlocals := pi.p.locals.length, hi := hi,
-    gnames := G.gnames ++ G.pnames, dep := dep, abase := G.abase, asize := G.asize }
+    gnames := G.gnames ++ G.pnames, dep := dep, abase := G.abase, asize := G.asize, strs := G.strs }
+
+/-- The word that stands for a value (`VRepOf`), in the program context. -/
+abbrev GCtx.VRep (G : GCtx) : Val → Word → Prop := VRepOf G.env G.abase G.strs
+
+/-- The pool of the whole program. -/
+def GCtx.items (G : GCtx) : List PoolItem :=
+  (G.consts.map fun e => PoolItem.const e.1 e.2) ++ (G.strs.map fun e => PoolItem.str e.1 e.2)
 
 /-- The same program context without its arrays (for facts that do not depend on them). -/
-def GCtx.noArr (G : GCtx) : GCtx := { G with asize := fun _ => 0 }
+def GCtx.noArr (G : GCtx) : GCtx := { G with asize := fun _ => 0, strs := [] }
 
 theorem KOf_S (G : GCtx) (pi : PInfo) (sp dep : Nat) (hi : Nat → Word) : (KOf G pi sp dep hi).S = G.S pi := rfl
 
@@ -240,6 +294,8 @@ structure GRep (G : GCtx) (σ : X.St) (mem : Mem) : Prop where
   acells : ∀ id cells, σ.arrays[id]? = some cells → cells.size = G.asize id ∧
     ∀ idx w, cells[idx]? = some (some w) → mem.read (G.abase id + idx) = w
   consts : ∀ v l j k, (v, l) ∈ G.consts → G.env.ds[j]? = some (.label k l) → mem.read (G.env.addr j / 4) = IAm.W v
+  strs : ∀ l bs ws j k, (l, bs) ∈ G.strs → X.packString bs = .ok ws → G.env.ds[j]? = some (.label k l) →
+    ∀ idx (h : idx < ws.length), mem.read (G.env.addr j / 4 + idx) = ws[idx]
 
 def PInfo.lnames (pi : PInfo) : List String := pi.p.formals.map X.Formal.name ++ pi.p.locals.map X.Decl.name
 
@@ -253,9 +309,9 @@ structure GCtx.OK (G : GCtx) : Prop where
   gen : ∀ pi ∈ G.procs, genStmt (G.ctxOf pi) (optStmt (annotS G.rho pi.p.body)) pi.gs1 = .ok (pi.code, pi.gs2)
   size_ok : ∀ pi ∈ G.procs, pi.gs2.size ≤ G.S pi
   nl_ok : ∀ pi ∈ G.procs, pi.p.locals.length ≤ pi.gs1.offset
-  consts_ok : ∀ pi ∈ G.procs, ∀ e ∈ pi.gs2.constMap, e ∈ G.consts
+  consts_ok : ∀ pi ∈ G.procs, ∀ x ∈ pi.gs2.items, x ∈ G.items
   smax_ok : ∀ pi ∈ G.procs, G.S pi ≤ G.smax
-  body_ok : ∀ pi ∈ G.procs, okS5 G.pk G.pnames G.xc.impure G.rho pi.p.body = true
+  body_ok : ∀ pi ∈ G.procs, okS5 G.pk G.pnames G.xc.impure G.rho (G.isLoc pi) pi.p.body = true
   pure_ok : G.pk = true → PureOk G.xc
   formals_ok : ∀ pi ∈ G.procs, pi.p.formals.all isVAFormal = true
   locals_var : ∀ pi ∈ G.procs, pi.p.locals.all isVarDecl = true
@@ -288,6 +344,9 @@ structure GCtx.OK (G : GCtx) : Prop where
   addr_lt : ∀ j k n, G.env.ds[j]? = some (.label k n) → G.env.addr j < 2 ^ 32
   const_lo : ∀ v l j k, (v, l) ∈ G.consts → G.env.ds[j]? = some (.label k l) → G.env.addr j / 4 < G.lo
   arr_hi : ∀ id, G.asize id ≠ 0 → G.spv + 2 < G.abase id ∧ G.abase id + G.asize id ≤ memWords
+  str_ok : ∀ l bs ws, (l, bs) ∈ G.strs → X.packString bs = .ok ws →
+    ∃ j k, G.env.ds[j]? = some (.label k l) ∧ G.env.addr j % 4 = 0 ∧ 2 ≤ G.env.addr j / 4 ∧
+      G.env.addr j / 4 + ws.length ≤ G.lo
   arr_disj : ∀ id1 id2, id1 ≠ id2 → G.asize id1 ≠ 0 → G.asize id2 ≠ 0 →
     G.abase id1 + G.asize id1 ≤ G.abase id2 ∨ G.abase id2 + G.asize id2 ≤ G.abase id1
 
@@ -298,8 +357,8 @@ structure GCtx.OK (G : GCtx) : Prop where
     state of the reference semantics in memory; or it terminates the program. -/
 def CallSpec (G : GCtx) (fuel : Nat) : Prop :=
   ∀ pi ∈ G.procs, ∀ (vs : List Val) (st : X.St) (lnk b : Word) (mem : Mem) (spc : Nat) (k : Nat) (kind : LabelKind) (n : String),
-    GRep G st mem → mem.read 1 = BitVec.ofNat 32 spc → (∀ v ∈ vs, okV v = true) →
-    (∀ j (hj : j < vs.length), mem.read (spc + pi.po + j) = wordOf G.abase vs[j]) →
+    GRep G st mem → mem.read 1 = BitVec.ofNat 32 spc →
+    (∀ j (hj : j < vs.length), G.VRep vs[j] (mem.read (spc + pi.po + j))) →
     G.spv ≤ spc + st.depth * G.smax → spc + pi.po + vs.length ≤ G.spv + 1 → G.lo ≤ spc →
     G.env.ds[k]? = some (.label kind n) → G.env.addr k = lnk.toNat →
     match X.callUser fuel G.xc pi.p vs st with
